@@ -445,6 +445,14 @@ func (x *Run) mapArrs(mt *types.Map) mapArrs {
 	return m
 }
 
+// visitedArr: ghost array "keys visited by the running range statement", per
+// map type, indexed by map object then key.
+func (x *Run) visitedArr(mt *types.Map) string {
+	name := "RangeVisited." + shortTypeName(mt)
+	x.arrSort(name, Sort(fmt.Sprintf("(Array Int (Array %s Bool))", x.d.sortOf(mt.Key()))))
+	return name
+}
+
 func mapTypeOf(t types.Type) *types.Map {
 	m, _ := types.Unalias(t).Underlying().(*types.Map)
 	return m
